@@ -284,7 +284,7 @@ def slice_function(root, spec):
     # R-std: overloaded / templated std:: helpers -> type-generic C macros of verif.h (applied after the per-function rewrites, so a listed
     # rewrite still wins).  std::abs dispatches on the argument type exactly as the C11 _Generic selection in STD_ABS does.
     for cxx, c in (('std::abs', 'STD_ABS'), ('std::min', 'STD_MIN'), ('std::max', 'STD_MAX'), ('std::swap', 'STD_SWAP'), ('std::floor', 'floor'), ('std::ceil', 'ceil'),
-                   ('std::sqrt', 'sqrt'), ('std::memcpy', 'memcpy'), ('std::memset', 'memset'), ('std::isnan', 'isnan'), ('std::isinf', 'isinf')):
+                   ('std::sqrt', 'sqrt'), ('std::memcpy', 'memcpy'), ('std::memset', 'memset'), ('std::isnan', 'isnan'), ('std::isinf', 'isinf'), ('std::fill_n', 'STD_FILL_N'), ('std::fill', 'STD_FILL')):
         body, k = re.subn(r'\b%s\s*(?:<[^<>()]*>)?\s*\(' % re.escape(cxx), c + '(', body)
         if k: fired['R-std:' + cxx] = k
     # R-cast
